@@ -458,6 +458,17 @@ func (fc *FnCtx) concat(x, y string) string {
 
 func (fc *FnCtx) pctTerm(n string) string {
 	t := app("pct", n)
+	if strings.Contains(n, "q_") {
+		// under a binder: the instance cannot be asserted, so the axiom itself is added (once) to this function's queries
+		ax := "(assert (forall ((pn Int)) (! (and (isPct (pct pn)) (= (pctNum (pct pn)) pn)) :pattern ((pct pn)))))"
+		for _, a := range fc.q.axioms {
+			if a == ax {
+				return t
+			}
+		}
+		fc.q.axioms = append(fc.q.axioms, ax)
+		return t
+	}
 	fc.q.assert(fmt.Sprintf("(and (isPct %s) (= (pctNum %s) %s))", t, t, n))
 	return t
 }
